@@ -1096,12 +1096,12 @@ class SymNP(types.ModuleType):
         return self.where(a)
 
     # ---- order statistics (fork per comparison)
-    def max(self, a, axis=None, **kw):
+    def max(self, a=None, axis=None, **kw):
         return _minmax(a, axis, True)
 
     amax = max
 
-    def min(self, a, axis=None, **kw):
+    def min(self, a=None, axis=None, **kw):
         return _minmax(a, axis, False)
 
     amin = min
